@@ -68,7 +68,19 @@ class EvDomain(Domain):
         if loc is not None and loc[0] == 'f' and loc[1]:
             last = loc[1][-1]
             if isinstance(last, str) and not last.startswith('@'): return last
+        if loc is not None and loc[0] == 'l' and len(loc) == 3:
+            nm = self.local_name(st, loc[2])
+            if nm: return nm
         return self.obj_name(obj)
+
+    @staticmethod
+    def local_name(st, decl):
+        """source name of the local variable with this declaration id (so that `__range1` / a reference alias reports the variable it designates)"""
+        for k, node, payload in reversed(st.events):
+            if k == 'decl' and node is not None:
+                for v in node.vars:
+                    if v.get('decl') == decl: return v['name']
+        return None
 
     def opaque(self, n):
         q = n.d.get('calleeq') or n.d.get('ctor') or ''
@@ -168,6 +180,14 @@ class EvDomain(Domain):
             self.ev(st, Ev('mutex.' + base, n, name=q, obj=on), fr); return None
         if q.startswith('std::function') and n.op == '()':
             self.ev(st, Ev('opaque', n, name=q, obj=on, args=vals), fr); return Sym('cb-result')
+        if q == 'std::swap' and len(args) == 2 and args[0] is not None and args[1] is not None:
+            la = ex.loc_of(args[0], st, fr); lb = ex.loc_of(args[1], st, fr)
+            e = self.ev(st, Ev('call', n, name=q, obj=None, args=vals), fr)
+            e.argobjs = [self.resolve_obj(ex, a, st, fr) for a in args]
+            if la is not None and lb is not None:
+                va = ex.read(la, st, args[0]); vb = ex.read(lb, st, args[1])
+                ex.write(la, vb, st, n); ex.write(lb, va, st, n)
+            return None
         if q == 'std::invoke' and args:
             if isinstance(vals[0], Closure): return Sym('cb-result')        # body already run (sync_closures)
             e = self.ev(st, Ev('opaque', n, name=q, obj=self.resolve_obj(ex, args[0], st, fr), val=vals[0], args=vals[1:]), fr)
@@ -343,7 +363,7 @@ def run_paths(facts, fn, domain, args=None, this_path=('this',)):
     return [(p, _flatten(p)) for p in paths]
 
 
-CONTAINER_TESTS = ('empty', 'end', 'cend', 'begin', 'cbegin', 'size')
+CONTAINER_TESTS = ('empty', 'end', 'cend', 'begin', 'cbegin', 'size', 'rbegin', 'rend', 'crbegin', 'crend')
 
 
 def loop_conds(facts, fn_names):
